@@ -541,7 +541,7 @@ LAW(L1_lowmem_chunk1, RC, 200, 10000, 480, "always (chunk size 1 below the lengt
   checkLogLik(c, *ob.lik, lg.logL, "LowMemory(chunk 1)");
 }
 
-LAW(L1_long, RC, 200, 8000, 64, "always (13..5000 sites: chunk sizes below the length, seeded emission table)") {
+LAW(L1_long, RC, 200, 8000, 220, "always (13..5000 sites: chunk sizes below the length, seeded emission table)") {
   bool hasZero, hasExtreme;
   Spec s; s.n = 1 + static_cast<int>(c.below(5));
   s.L = static_cast<int>(std::floor(c.logu(13, 5001))); if (s.L > 5000) s.L = 5000;
@@ -828,23 +828,24 @@ LAW(L5_history, RC, 8000, 300000, 520, "a changed parameter value or new break p
     if (alg == RESC && scaledSkipped(c, lg)) return false;
     DerivGuards g = derivGuards(c, alg, cur, r, lg, k);
     if (!g.d1ok || (order == 2 && !g.d2ok)) return false;
-    // stale cache keyed by the variable name: Rescaled never invalidates it, Logsum only on a parameter change
-    bool stale1 = h.d1Key == var && h.changedSinceD1, stale2 = h.d2Key == var && h.changedSinceD2;
-    if (order == 1 ? stale1 : (stale2 || (alg == LOGS && stale1))) { c.label("derivative-cache-stale-class"); if (c.isKnown("C13-derivative-cache-stale")) return false; }
-    if (order == 2 && alg == RESC && !(h.d1Key == var && !h.changedSinceD1)) { c.label("rescaled-d2-without-d1-class"); if (c.isKnown("C13-rescaled-d2-needs-d1")) return false; }
+    // h mirrors the cache keys of AbstractHmmLikelihood (a query whose variable equals the key is answered from the cache):
+    // Rescaled never invalidates them, Logsum only on a parameter notification
+    bool hit1 = h.d1Key == var, hit2 = h.d2Key == var;
+    bool stale = order == 1 ? (hit1 && h.changedSinceD1) : (hit2 ? h.changedSinceD2 : (alg == LOGS && hit1 && h.changedSinceD1));   // Logsum's second derivative asks for the first one
+    if (stale) { c.label("derivative-cache-stale-class"); if (c.isKnown("C13-derivative-cache-stale")) return false; }
+    if (order == 2 && alg == RESC && !hit2 && !(hit1 && !h.changedSinceD1)) { c.label("rescaled-d2-without-d1-class"); if (c.isKnown("C13-rescaled-d2-needs-d1")) return false; }
     Obj fresh = build(cur, alg, chunk); LD rd1, rd2; refDerivs(r, *cur.tab, cur.th, k, rd1, rd2);
     c.label(alg == LOGS ? (order == 1 ? "checked:logsum-d1" : "checked:logsum-d2") : (order == 1 ? "checked:rescaled-d1" : "checked:rescaled-d2"));
     double f1 = fresh.lik->getFirstOrderDerivative(var);
     if (order == 1) {
       double d1 = ob.lik->getFirstOrderDerivative(var);
-      if (h.d1Key != var || h.changedSinceD1) { h.d1Key = var; h.changedSinceD1 = false; }
+      if (!hit1) { h.d1Key = var; h.changedSinceD1 = false; }
       CHECK(vf::sameBits(d1, f1), who << ": getFirstOrderDerivative(" << var << ") = " << vf::dec(d1) << " but a fresh object built from the current parameter values and break points gives " << vf::dec(f1) << " (reference " << vf::dec(static_cast<double>(-rd1)) << ")");
       CHECK(derivClose(d1, -rd1), who << ": getFirstOrderDerivative(" << var << ") = " << vf::dec(d1) << " but d(-log L)/d" << var << " = " << vf::dec(static_cast<double>(-rd1)));
     } else {
       double f2 = fresh.lik->getSecondOrderDerivative(var);
       double d2 = ob.lik->getSecondOrderDerivative(var);
-      if (h.d2Key != var || h.changedSinceD2) { h.d2Key = var; h.changedSinceD2 = false; }
-      if (alg == LOGS && (h.d1Key != var || h.changedSinceD1)) { h.d1Key = var; h.changedSinceD1 = false; }   // Logsum evaluates the first derivative on the way
+      if (!hit2) { h.d2Key = var; h.changedSinceD2 = false; if (alg == LOGS && !hit1) { h.d1Key = var; h.changedSinceD1 = false; } }   // Logsum evaluates the first derivative on the way
       CHECK(vf::sameBits(d2, f2), who << ": getSecondOrderDerivative(" << var << ") = " << vf::dec(d2) << " but a fresh object (first, then second derivative) gives " << vf::dec(f2) << " (reference " << vf::dec(static_cast<double>(-rd2)) << ")");
       CHECK(derivClose(d2, -rd2), who << ": getSecondOrderDerivative(" << var << ") = " << vf::dec(d2) << " but d2(-log L)/d" << var << "^2 = " << vf::dec(static_cast<double>(-rd2)));
     }
